@@ -9,7 +9,7 @@ from vf.world.pipe import W
 
 PART = {}
 H = "vf.harness.C14:"
-KF_MARKER = "C14-substring-marker-order-sensitive"
+KF_MARKER = "C14-given-marker-molecule-position-sensitive"
 
 ENCODES = pc.ENCODES_PIPE + ["synrbl.SynUtils.chem_utils:remove_atom_mapping", "synrbl.SynRuleImputer.synthetic_rule_constraint:RuleConstraint.check_no_constraint", "synrbl.SynRuleImputer.synthetic_rule_constraint:RuleConstraint.check_even"]
 STUBS = pc.STUBS_PIPE + ["an equivalent spelling of an abstract molecule is an alias token with the same composition, charge and validity (that RDKit parses two spellings to the same molecule is the contract); MCS and functional-group outcomes are keyed by the molecules, not by their spelling or order"]
@@ -74,17 +74,17 @@ def h_main(jC: int, jH: int, jO: int, jq: int, qC: int, qH: int, qO: int, qq: in
 
 
 def in_marker_region(rx):
-    """Trigger region of the known finding: a marker-like molecule (free H/O placeholder spelling, H2 written
-    [H][H], H2O2 written OO) that is not the first molecule of its side, so that '.[H]', '.[O]' or '.OO' occurs
-    as a substring of the side string although the placeholder token itself is absent."""
+    """Trigger region of the known finding: a GIVEN complete molecule [H], [O] or OO (free-atom placeholder, hydrogen
+    peroxide) on the product side -- or [H] / [O] on the reactant side -- that is not the first molecule of its side:
+    the rule constraint step takes it for a placeholder appended by a completion."""
     parts = pipe_clean(rx).split(">>")
     if len(parts) != 2:
         return False
     for t in parts[0].split(".")[1:]:
-        if t.startswith("[H]") or t.startswith("[O]"):
+        if t in ("[H]", "[O]"):
             return True
     for t in parts[1].split(".")[1:]:
-        if t.startswith("[H]") or t.startswith("[O]") or t.startswith("OO"):
+        if t in ("[H]", "[O]", "OO"):
             return True
     return False
 
